@@ -517,3 +517,20 @@ def run(index, rep, tier):
                 rep.check(not bad, "R10.14", fi.qualname, "bit walk bounded by the number of members", fn_where(fi, lp), "%s: the bit walk ends when the mask is exhausted" % fi.name,
                           "%s walks the bits of a mask and looks each one up in `_accession_index_taxon_map`, but bounds the walk with `%s`: accession indices are never re-used, so after any removal the highest index in use exceeds the number of members and the taxa admitted last are silently dropped from the result (bitmask_taxa_list(taxa_bitmask(taxa=[d])) == [] for namespace [a,b,c,d] minus a)" % (fi.qualname, norm(bad[0]) if bad else ""))
         rep.floor("R10.14", "bit walks over the accession map", 1, n14)
+
+    # ---- R10.15 a first-match query is answered by the first match; bitmasks of members are united
+    with rep.section("R10.15"):
+        rep.rule("R10.15", "(a) a label query is answered in membership order: the look-up methods of TaxonNamespace (get_taxon, get_taxa, require_taxon, findall, has_taxon_label, has_taxa_labels ...) go through _lookup_label and never consult label_taxon_map(), whose dictionary keeps the LAST member with a label; (b) the bitmask of a set of members is the union of their bits (`|`), never an arithmetic sum - a member named twice (duplicate labels, case variants) would carry into another member's bit")
+        LOOKUPS = ("get_taxon", "get_taxa", "require_taxon", "findall", "has_taxon_label", "has_taxa_labels", "get_taxon_by_label" )
+        na = 0
+        for name in LOOKUPS:
+            f = index.klass(TNS).methods.get(name)
+            if f is None:
+                continue
+            na += 1
+            viamap = [c for c in calls_in(f.node, nested=True) if call_name(c) == "label_taxon_map"]
+            rep.check(not viamap, "R10.15", f.qualname, "label query answered from label_taxon_map()", fn_where(f, viamap[0] if viamap else None), "%s answers through _lookup_label" % f.name,
+                      "TaxonNamespace.%s consults `label_taxon_map()`: that dictionary is filled in membership order, so for a label carried by several members (duplicates, case variants under the insensitive setting) it holds the LAST of them - the query returns another member than get_taxon / require_taxon, which return the first" % name)
+        rep.floor("R10.15", "look-up methods of TaxonNamespace", 5, na)
+        nbm = bitmask_algebra_rule(index, rep, "R10.15", ["dendropy.datamodel.taxonmodel"])
+        rep.floor("R10.15", "bitmask operations in the namespace code", 3, nbm)
